@@ -52,8 +52,16 @@ func sccCalls(w *World, c scc) []recCall {
 				args = append([]ssa.Value{cc.Value}, args...)
 			}
 			rc := recCall{From: []*ssa.Function{f}, To: tos, In: ins}
-			for _, a := range args {
-				if projectionDerived(f, a) {
+			// a direct self-recursion descends only if some argument is a strict projection of the parameter *in the same
+			// position*: Bind(bs, pat) calling Bind(bs, bs[v]) hands on a projection of its first parameter as its
+			// second — nothing gets smaller (a binding can name itself)
+			selfRec := len(tos) == 1 && tos[0] == f && cc.StaticCallee() == f && len(args) == len(f.Params)
+			for ai, a := range args {
+				if selfRec {
+					if projectionDerivedFrom(f, a, f.Params[ai]) {
+						rc.Dec = true
+					}
+				} else if projectionDerived(f, a) {
 					rc.Dec = true
 				}
 				// bounded: an int parameter +/- a constant, with a comparison on that parameter in the function
@@ -284,7 +292,7 @@ func init() {
 	register(&propertySpec{
 		ID:      "C13",
 		Explain: "Static totality rules: recursion classes, may-panic sites on input-derived data, nil use after an ignored error, locks released by plain calls around code that can panic, swallowed errors.",
-		Rules:   []ruleFn{ruleTerm("C13"), rulePanics, rulePanicNilUse, ruleErrSwallow, ruleNilAfterErr, ruleLockDefer, rulePrivPair, ruleCacheErrOrigin, ruleNilZeroArg},
+		Rules:   []ruleFn{ruleTerm("C13"), rulePanics, rulePanicNilUse, ruleErrSwallow, ruleNilAfterErr, ruleLockDefer, rulePrivPair, ruleCacheErrOrigin, ruleNilZeroArg, ruleLockReentry("C13"), rulePendingPair("C13")},
 	})
 }
 
